@@ -745,6 +745,24 @@ func ruleR13_8(w *World, r *Report) {
 			}
 		})
 		if line == nil {
+			// the reading loop may live in a helper of the reader (`pb.readOPBLines(f)`): look in what it calls
+			var hs []*ssa.Function
+			for g := range w.Reachable(fn) {
+				if g != fn && w.PkgName(g) == rd.pkg {
+					hs = append(hs, g)
+				}
+			}
+			sortFns(hs)
+			for _, g := range hs {
+				allInstrs(g, func(ins ssa.Instruction) {
+					if c, ok := ins.(*ssa.Call); ok && line == nil && w.calleeName(&c.Call) == "(*bufio.Scanner).Text" {
+						line = c
+						fn = g
+					}
+				})
+			}
+		}
+		if line == nil {
 			r.Unk("R13.8", rd.pkg+"."+rd.fn, w.Pos(fn.Pos()), "no scanner.Text() call")
 			continue
 		}
